@@ -126,7 +126,7 @@ Print Assumptions C10_failed_listed.
     between two good ones, two codemods; the run completes, the bad file is listed by both codemods and untouched.
     (2) on the current tables the regex pipeline aborts on the same project. *)
 Example C10_example_run :
-  let r := toy_run run_tables_v (toy_cfg false [[97%N]; [98%N]; [99%N]]) [toy_codemod 1 PLibcst DNone; toy_codemod 2 PLibcst DNone]
+  let r := toy_run tables_pinned (toy_cfg false [[97%N]; [98%N]; [99%N]]) [toy_codemod 1 PLibcst DNone; toy_codemod 2 PLibcst DNone]
              [([97%N], [1%N]); ([98%N], [255%N]); ([99%N], [6%N])] [] in
   exit_status r = 0%Z /\
   option_map (map r_failed) (report [toy_codemod 1 PLibcst DNone; toy_codemod 2 PLibcst DNone] r) = Some [[[98%N]]; [[98%N]]] /\
@@ -135,5 +135,5 @@ Proof. vm_compute. repeat split; reflexivity. Qed.
 Example C10_example_hyps :
   (forall K fi, failsb bytes toy_parse toy_T K fi (Some [255%N]) = true) /\
   (forall K, toy_S K [98%N] [255%N] = []) /\
-  tries_present run_tables_v PLibcst = true.
+  tries_present tables_pinned PLibcst = true.
 Proof. split; [reflexivity|]. split; reflexivity. Qed.
